@@ -83,6 +83,7 @@ enum Via {
 fn run_case(cfg: RtCfg, prog: &Arc<Program>, lim: &Lim, via: Via, base: &[(u32, u128)]) -> Result<u64, String> {
     let rl = lim.to_rt();
     let limc = lim.clone();
+    vcheck::rtlab::END_ADDS.with(|e| *e.borrow_mut() = END_DELAYS.to_vec());
     let b = build_with(cfg, prog, None, move |b| match (via, &limc) {
         (Via::Limit, Lim::None) => b,
         (Via::Limit, _) => b.limit(rl),
@@ -107,6 +108,7 @@ fn run_case(cfg: RtCfg, prog: &Arc<Program>, lim: &Lim, via: Via, base: &[(u32, 
     });
     let log = b.log.clone();
     let r = quiet_catch(move || b.rt.run()).map_err(|m| format!("run panicked: {m}"))?;
+    vcheck::rtlab::END_ADDS.with(|e| e.borrow_mut().clear());
     let (_, end, prof) = r.map_err(|e| format!("run returned an error: {e:?}"))?;
     let got = log.lock().unwrap().clone();
     // longest admitted prefix of the time-ordered sequence
@@ -149,6 +151,10 @@ fn run_case(cfg: RtCfg, prog: &Arc<Program>, lim: &Lim, via: Via, base: &[(u32, 
         }
     }
     let mut rem_exp: Vec<(u32, u128)> = sched.into_iter().filter(|e| !base[..k].contains(e)).collect();
+    // what the application scheduled in its at_sim_end can never run and is not lost either
+    for (i, d) in END_DELAYS.iter().enumerate() {
+        rem_exp.push((900 + i as u32, exp_end + u128::from(*d)));
+    }
     rem_exp.sort_unstable();
     let mut rem_got: Vec<(u32, u128)> = prof.remaining.iter().map(|(e, t)| (e.0, t.as_nanos())).collect();
     let in_order = rem_got.windows(2).all(|w| w[0].1 <= w[1].1);
@@ -159,6 +165,9 @@ fn run_case(cfg: RtCfg, prog: &Arc<Program>, lim: &Lim, via: Via, base: &[(u32, 
     let _ = in_order;
     Ok(vcheck::fp(&(k, &rem_got)))
 }
+
+/// delays of the two events every limited run's application schedules in at_sim_end
+const END_DELAYS: [u64; 2] = [0, 3];
 
 fn unlimited(cfg: RtCfg, prog: &Arc<Program>) -> Result<Vec<(u32, u128)>, String> {
     let b = build(cfg, prog, None, None);
@@ -237,7 +246,7 @@ impl Property for C11 {
         format!(
             "every event program of 1..={} events (delays {{0,1,t,Y+1}}) x start in {{0,5}} x (n,t) in {:?} x every limit: None, EventCount(0..=m+1), SimTime(T) for T = every timestamp and +-1ns, \
              And/Or of every (count, time) pair in both operand orders and via Builder::max_itr/max_time chains in both orders{}, and every ordered pair of plain bounds (count/count, time/time, mixed) added one after the other through max_itr/max_time and through limit(..).limit(..); \
-             oracle: own evaluator applied to the log L of the real unlimited run: dispatched == longest admitted prefix of L, remaining == undelivered events with timestamps, end time, event_count; \
+             oracle: own evaluator applied to the log L of the real unlimited run: dispatched == longest admitted prefix of L, remaining == undelivered events with timestamps plus the two events the application schedules in its at_sim_end, end time, event_count; \
              non-trivial = the limit cuts the run strictly inside (0 < k < |L|)",
             tier.pick(4, 5),
             CFGS,
